@@ -1,6 +1,6 @@
 import P2sh.Core.Fn.Sound
 /-!
-# Compiler correctness with first-order functions
+# Compiler correctness with functions and closures
 
 `sound_all : ∀ fuel, Sound Φ K F fuel` (given `Linked Φ K F`), by induction on the fuel of the
 reference evaluation: every terminating evaluation of an expression / statement / block /
@@ -9,7 +9,11 @@ anywhere in the code of the running activation, its constants anywhere in the po
 operands underneath untouched.  A call pushes exactly its value: when the callee returns (by
 `return` from inside any nesting of loops and blocks, or by reaching the end of its body) the
 machine is back in the caller's frame, after the `Call`, with the callee slot and the arguments
-replaced by the value, and the caller's local slots as they were.
+replaced by the value, and the caller's local slots as they were.  A function literal loads the
+current values of its captured variables in the order of their free indices (`caps_load`) and
+`Closure` copies them into a new closure object; `GetFree` / `SetFree` read and write the running
+closure's object — the heap of closure objects of the machine is, at every point, the heap of the
+reference evaluation.
 -/
 namespace P2sh.Core.Fn
 open P2sh P2sh.Core
@@ -22,6 +26,56 @@ macro "parith" : tactic =>
     | omega
     | (simp [bytes_append, bytes, Instr.size]; done)
     | (simp [bytes_append, bytes, Instr.size]; omega))
+
+/-- the captured values are loaded in the order of their free indices (the last one on top) -/
+theorem caps_load : ∀ (caps : List Cap) (X : Ctxt) (pos : Nat) (ops : List Val) (cx : Option (FnDef × Nat)) (σ : Sto) (vs : List Val),
+    codeAt X.code pos (caps.map capInstr) → Agree cx X → capVals cx σ caps = some vs →
+    FSteps K F (X.st pos ops σ) (X.st (pos + bytes (caps.map capInstr)) (vs.reverse ++ ops) σ) ∧ vs.length = caps.length
+  | [], X, pos, ops, cx, σ, vs, _, _, hc => by
+    simp only [capVals, Option.some.injEq] at hc
+    subst hc
+    exact ⟨(FSteps.refl _).toPc (by simp [bytes]), rfl⟩
+  | c :: rest, X, pos, ops, cx, σ, vs, h, hx, hc => by
+    simp only [capVals] at hc
+    cases hv : capVal cx σ c with
+    | none => simp [hv] at hc
+    | some v =>
+      simp only [hv] at hc
+      cases hr : capVals cx σ rest with
+      | none => simp [hr] at hc
+      | some vr =>
+        simp only [hr, Option.some.injEq] at hc
+        subst hc
+        simp only [List.map_cons] at h ⊢
+        obtain ⟨h1, h2⟩ := codeAt_cons h
+        have s1 : FSteps K F (X.st pos ops σ) (X.st (pos + (capInstr c).size) (v :: ops) σ) := by
+          cases c with
+          | loc i =>
+            simp only [capVal] at hv
+            simp only [capInstr] at h1 ⊢
+            exact FSteps.one (fstep_getLocal h1 hv)
+          | free i =>
+            cases cx with
+            | none => simp [capVal] at hv
+            | some cc =>
+              obtain ⟨fd, id⟩ := cc
+              simp only [capVal] at hv
+              simp only [capInstr] at h1 ⊢
+              obtain ⟨_, hid, _⟩ := hx fd id rfl
+              exact FSteps.one (fstep_getFree h1 (by rw [hid]; exact hv))
+          | self =>
+            cases cx with
+            | none => simp [capVal] at hv
+            | some cc =>
+              obtain ⟨fd, id⟩ := cc
+              simp only [capVal, Option.some.injEq] at hv
+              subst hv
+              simp only [capInstr] at h1 ⊢
+              obtain ⟨hfd, hid, _⟩ := hx fd id rfl
+              exact (FSteps.one (fstep_currClosure h1)).to (by rw [hfd, hid]; rfl)
+        obtain ⟨s2, hl⟩ := caps_load rest X (pos + (capInstr c).size) (v :: ops) cx σ vr h2 hx hr
+        refine ⟨(s1.trans s2).to ?_, by simp [hl]⟩
+        simp [bytes, Nat.add_assoc]
 
 theorem soundE_succ (fuel : Nat) (ih : Sound Φ K F fuel) (hL : Linked Φ K F) : SoundE Φ K F (fuel + 1) := by
   intro e X pos k ops cx σ σ' v h hp hx he
@@ -65,12 +119,67 @@ theorem soundE_succ (fuel : Nat) (ih : Sound Φ K F fuel) (hL : Linked Φ K F) :
     simp only [evalE] at he
     cases cx with
     | none => simp at he
-    | some fd =>
+    | some c =>
+      obtain ⟨fd, id⟩ := c
       simp only [Option.some.injEq, Prod.mk.injEq] at he
       obtain ⟨rfl, rfl⟩ := he
       simp only [compileE] at h ⊢
-      have hfd := (hx fd rfl).1
-      exact ((FSteps.one (fstep_currClosure h)).to (by rw [hfd])).toPc (by parith)
+      obtain ⟨hfd, hid, _⟩ := hx fd id rfl
+      exact ((FSteps.one (fstep_currClosure h)).to (by rw [hfd, hid])).toPc (by parith)
+  | fget l i =>
+    simp only [evalE] at he
+    cases cx with
+    | none => simp at he
+    | some c =>
+      obtain ⟨fd, id⟩ := c
+      simp only at he
+      cases hv : freeGet σ.h id i with
+      | none => simp [hv] at he
+      | some x =>
+        simp only [hv, Option.some.injEq, Prod.mk.injEq] at he
+        obtain ⟨rfl, rfl⟩ := he
+        simp only [compileE] at h ⊢
+        obtain ⟨_, hid, _⟩ := hx fd id rfl
+        exact (FSteps.one (fstep_getFree h (by rw [hid]; exact hv))).toPc (by parith)
+  | fset l i a =>
+    simp only [compileE] at h ⊢
+    simp only [evalE] at he
+    simp only [constsE] at hp
+    cases hea : evalE Φ fuel cx σ a with
+    | none => simp [hea] at he
+    | some r =>
+      obtain ⟨va, σ1⟩ := r
+      simp only [hea] at he
+      cases cx with
+      | none => simp at he
+      | some c =>
+        obtain ⟨fd, id⟩ := c
+        simp only at he
+        cases hv : freeSet σ1.h id i va with
+        | none => simp [hv] at he
+        | some h' =>
+          simp only [hv, Option.some.injEq, Prod.mk.injEq] at he
+          obtain ⟨rfl, rfl⟩ := he
+          generalize hca : compileE pos k a = ca at *
+          have ha := ih.E a X pos k ops (some (fd, id)) σ σ1 va (hca ▸ codeAt_left h) hp hx hea
+          rw [hca] at ha
+          have hs : codeAt X.code (pos + bytes ca) [Instr.setFree i] := codeAt_right h
+          obtain ⟨_, hid, _⟩ := hx fd id rfl
+          exact (ha.trans (FSteps.one (fstep_setFree hs (by rw [hid]; exact hv)))).toPc (by parith)
+  | mkclos l code lines np nl body caps =>
+    simp only [compileE] at h ⊢
+    simp only [evalE] at he
+    simp only [constsE] at hp
+    cases hc : capVals cx σ caps with
+    | none => simp [hc] at he
+    | some vs =>
+      simp only [hc, Option.some.injEq, Prod.mk.injEq] at he
+      obtain ⟨rfl, rfl⟩ := he
+      obtain ⟨s1, hlen⟩ := caps_load (K := K) (F := F) caps X pos ops cx σ vs (codeAt_left h) hx hc
+      have hcl : codeAt X.code (pos + bytes (caps.map capInstr)) [Instr.closure (k + (constsP body).length) vs.length] := by
+        rw [hlen]; exact codeAt_right h
+      have hk : K[k + (constsP body).length]? = some (.func (mkFd code lines ⟨np, nl, body, l⟩)) := poolAt_get (poolAt_right hp)
+      exact (s1.trans (FSteps.one (fstep_closure hcl hk))).toPc (by parith)
   | un l op a =>
     simp only [compileE] at h ⊢
     simp only [evalE] at he
@@ -354,22 +463,22 @@ theorem soundE_succ (fuel : Nat) (ih : Sound Φ K F fuel) (hL : Linked Φ K F) :
             by_cases harity : vs.length = d.np
             · simp only [harity, if_true] at he
               -- the call: a fresh activation
-              have hstep := fstep_call (K := K) (F := F) (X := X) (g := σ2.g) (fr := fr) (id := id)
+              have hstep := fstep_call (K := K) (F := F) (X := X) (g := σ2.g) (hp' := σ2.h) (fr := fr) (id := id)
                 (rest := ops ++ (σ2.l.reverse ++ X.base)) hcall hlen (by rw [hnp, ← harity, hlen]) hF
-              let X' := X.callee (pos + bytes cf + bytes ca) (compileFn kd d) fd (.clos fd fr id :: (ops ++ (σ2.l.reverse ++ X.base)))
-              have hx' : Agree (some fd) X' := by
-                intro fd' hfd'
+              let X' := X.callee (pos + bytes cf + bytes ca) (compileFn kd d) fd id (.clos fd fr id :: (ops ++ (σ2.l.reverse ++ X.base)))
+              have hx' : Agree (some (fd, id)) X' := by
+                intro fd' id' hfd'
                 cases hfd'
-                exact ⟨rfl, by simp [X', Ctxt.callee]⟩
-              cases hb : evalP Φ fuel (some fd) ⟨vs ++ List.replicate (d.nl - d.np) .null, σ2.g⟩ d.body with
+                exact ⟨rfl, rfl, by simp [X', Ctxt.callee]⟩
+              cases hb : evalP Φ fuel (some (fd, id)) ⟨vs ++ List.replicate (d.nl - d.np) .null, σ2.g, σ2.h⟩ d.body with
               | none => simp [hb] at he
               | some rb =>
                 obtain ⟨σ3, fb, bv⟩ := rb
-                have hbody := ih.T d.body X' 0 kd [] [] fd _ σ3 fb bv ⟨[], [], by simp [X', Ctxt.callee, compileFn], rfl⟩ hpd hx' hb
-                have hstart : FSteps K F (X.st pos ops σ) (X'.st 0 [] ⟨vs ++ List.replicate (d.nl - d.np) .null, σ2.g⟩) := by
+                have hbody := ih.T d.body X' 0 kd [] [] fd id _ σ3 fb bv ⟨[], [], by simp [X', Ctxt.callee, compileFn], rfl⟩ hpd hx' hb
+                have hstart : FSteps K F (X.st pos ops σ) (X'.st 0 [] ⟨vs ++ List.replicate (d.nl - d.np) .null, σ2.g, σ2.h⟩) := by
                   refine (s1.trans s2).trans (FSteps.one ?_)
                   have hst : X.st (pos + bytes cf + bytes ca) (vs.reverse ++ Val.clos fd fr id :: ops) σ2 =
-                      X.at (pos + bytes cf + bytes ca) (vs.reverse ++ (Val.clos fd fr id :: (ops ++ (σ2.l.reverse ++ X.base)))) σ2.g := by
+                      X.at (pos + bytes cf + bytes ca) (vs.reverse ++ (Val.clos fd fr id :: (ops ++ (σ2.l.reverse ++ X.base)))) σ2.g σ2.h := by
                     simp [Ctxt.st]
                   rw [← hnl, ← harity, hlen, hst]
                   exact hstep
@@ -507,27 +616,27 @@ theorem exitT_T {X : Ctxt} {ctx ops σ f b1 b2} (h : f ≠ FFlow.normal) : exitT
   cases f <;> simp_all [exitT, exitS]
 
 theorem fs_retv {X : Ctxt} {pc : Nat} {v : Val} {ops : List Val} {σ : Sto} (h : codeAt X.code pc [Instr.retv]) (hc : X.callers ≠ []) :
-    fstep K F (X.st pc (v :: ops) σ) = some (retSt X v σ.g) := by
+    fstep K F (X.st pc (v :: ops) σ) = some (retSt X v σ.g σ.h) := by
   cases hcs : X.callers with
   | nil => exact absurd hcs hc
   | cons c cs =>
-    have := fstep_retv (K := K) (F := F) (X := X) (Y := ops ++ σ.l.reverse) (g := σ.g) (v := v) h hcs
+    have := fstep_retv (K := K) (F := F) (X := X) (Y := ops ++ σ.l.reverse) (g := σ.g) (hp := σ.h) (v := v) h hcs
     simp only [List.append_assoc] at this
     simp only [Ctxt.st, List.cons_append, retSt, hcs]
     exact this
 
 theorem fs_ret {X : Ctxt} {pc : Nat} {ops : List Val} {σ : Sto} (h : codeAt X.code pc [Instr.ret]) (hc : X.callers ≠ []) :
-    fstep K F (X.st pc ops σ) = some (retSt X .null σ.g) := by
+    fstep K F (X.st pc ops σ) = some (retSt X .null σ.g σ.h) := by
   cases hcs : X.callers with
   | nil => exact absurd hcs hc
   | cons c cs =>
-    have := fstep_ret (K := K) (F := F) (X := X) (Y := ops ++ σ.l.reverse) (g := σ.g) h hcs
+    have := fstep_ret (K := K) (F := F) (X := X) (Y := ops ++ σ.l.reverse) (g := σ.g) (hp := σ.h) h hcs
     simp only [List.append_assoc] at this
     simp only [Ctxt.st, retSt, hcs]
     exact this
 
 /-- only an expression statement has a value -/
-theorem evalS_other_null : ∀ (fuel : Nat) (cx : Option FnDef) (σ : Sto) (s : FStmt) (σ' : Sto) (bv : Val),
+theorem evalS_other_null : ∀ (fuel : Nat) (cx : Option (FnDef × Nat)) (σ : Sto) (s : FStmt) (σ' : Sto) (bv : Val),
     s.isExprStmt = false → evalS Φ fuel cx σ s = some (σ', .normal, bv) → bv = .null := by
   intro fuel
   induction fuel with
@@ -581,7 +690,7 @@ theorem evalS_other_null : ∀ (fuel : Nat) (cx : Option FnDef) (σ : Sto) (s : 
           · simp at he
       · simp at he
 
-theorem evalS_ret_flow (fuel : Nat) (cx : Option FnDef) (σ : Sto) (s : FStmt) (σ' : Sto) (f : FFlow) (bv : Val)
+theorem evalS_ret_flow (fuel : Nat) (cx : Option (FnDef × Nat)) (σ : Sto) (s : FStmt) (σ' : Sto) (f : FFlow) (bv : Val)
     (hr : s.isRet = true) (he : evalS Φ fuel cx σ s = some (σ', f, bv)) : f ≠ .normal := by
   cases fuel with
   | zero => simp [evalS] at he
@@ -765,24 +874,24 @@ theorem soundV_succ (fuel : Nat) (ih : Sound Φ K F fuel) : SoundV Φ K F (fuel 
 
 theorem soundST_succ (fuel : Nat) (ih : Sound Φ K F fuel) (hS1 : SoundS Φ K F (fuel + 1)) (hI : SoundIfV Φ K F (fuel + 1)) :
     SoundST Φ K F (fuel + 1) := by
-  intro s X pos k ctx ops fd σ σ' f bv h hp hx he
-  have hcal : X.callers ≠ [] := (hx fd rfl).2
+  intro s X pos k ctx ops fd id σ σ' f bv h hp hx he
+  have hcal : X.callers ≠ [] := (hx fd id rfl).2.2
   by_cases hxs : s.isExprStmt = true
   · cases s <;> try (simp [FStmt.isExprStmt] at hxs)
     case expr l e =>
       rw [tailOf_expr] at h
       simp only [evalS] at he
-      cases hee : evalE Φ fuel (some fd) σ e with
+      cases hee : evalE Φ fuel (some (fd, id)) σ e with
       | none => simp [hee] at he
       | some r =>
         obtain ⟨v, σ2⟩ := r
         simp only [hee, Option.some.injEq, Prod.mk.injEq] at he
         obtain ⟨rfl, rfl, rfl⟩ := he
-        have s1 := ih.E e X pos k ops (some fd) σ σ2 v (codeAt_left h) (by simpa [constsS] using hp) hx hee
+        have s1 := ih.E e X pos k ops (some (fd, id)) σ σ2 v (codeAt_left h) (by simpa [constsS] using hp) hx hee
         exact (s1.trans (FSteps.one (fs_retv (codeAt_right h) hcal))).to (by simp [exitT])
     case ifS ls l c thn els =>
       rw [tailOf_ifS] at h
-      have s1 := hI ls l c thn els X pos k ctx ops (some fd) σ σ' f bv (codeAt_left h) (by simpa [constsS] using hp) hx he
+      have s1 := hI ls l c thn els X pos k ctx ops (some (fd, id)) σ σ' f bv (codeAt_left h) (by simpa [constsS] using hp) hx he
       by_cases hn : f = .normal
       · subst hn
         have s1' : FSteps K F (X.st pos ops σ) (X.st (pos + bytes (ifV pos k ctx c thn els)) (bv :: ops) σ') := s1
@@ -792,12 +901,12 @@ theorem soundST_succ (fuel : Nat) (ih : Sound Φ K F fuel) (hS1 : SoundS Φ K F 
     by_cases hr : s.isRet = true
     · have hcode : tailOf s (compileS pos k ctx s) = compileS pos k ctx s := by simp [tailOf, hx', hr]
       rw [hcode] at h
-      have hs := hS1 s X pos k ctx ops (some fd) σ σ' f bv h hp hx he
+      have hs := hS1 s X pos k ctx ops (some (fd, id)) σ σ' f bv h hp hx he
       have hn := evalS_ret_flow (Φ := Φ) _ _ _ _ _ _ _ hr he
       exact hs.to (exitS_T hn)
     · have hcode : tailOf s (compileS pos k ctx s) = compileS pos k ctx s ++ [.ret] := by simp [tailOf, hx', hr]
       rw [hcode] at h
-      have hs := hS1 s X pos k ctx ops (some fd) σ σ' f bv (codeAt_left h) hp hx he
+      have hs := hS1 s X pos k ctx ops (some (fd, id)) σ σ' f bv (codeAt_left h) hp hx he
       by_cases hn : f = .normal
       · subst hn
         have hbv := evalS_other_null (Φ := Φ) _ _ _ _ _ _ hx' he
@@ -807,8 +916,8 @@ theorem soundST_succ (fuel : Nat) (ih : Sound Φ K F fuel) (hS1 : SoundS Φ K F 
       · exact hs.to (exitS_T hn)
 
 theorem soundT_succ (fuel : Nat) (ih : Sound Φ K F fuel) : SoundT Φ K F (fuel + 1) := by
-  intro ss X pos k ctx ops fd σ σ' f bv h hp hx he
-  have hcal : X.callers ≠ [] := (hx fd rfl).2
+  intro ss X pos k ctx ops fd id σ σ' f bv h hp hx he
+  have hcal : X.callers ≠ [] := (hx fd id rfl).2.2
   cases ss with
   | nil =>
     simp only [evalP, Option.some.injEq, Prod.mk.injEq] at he
@@ -817,7 +926,7 @@ theorem soundT_succ (fuel : Nat) (ih : Sound Φ K F fuel) : SoundT Φ K F (fuel 
     exact (FSteps.one (fs_ret h hcal)).to (by simp [exitT])
   | cons s rest =>
     simp only [evalP] at he
-    cases h1 : evalS Φ fuel (some fd) σ s with
+    cases h1 : evalS Φ fuel (some (fd, id)) σ s with
     | none => simp [h1] at he
     | some r1 =>
       obtain ⟨σ1, f1, v1⟩ := r1
@@ -826,12 +935,12 @@ theorem soundT_succ (fuel : Nat) (ih : Sound Φ K F fuel) : SoundT Φ K F (fuel 
       | cons s2 rest2 =>
         rw [tailP_cons2] at h
         generalize hcs : compileS pos k ctx s = cs at *
-        have hs := ih.S s X pos k ctx ops (some fd) σ σ1 f1 v1 (hcs ▸ codeAt_left h) (poolAt_left hp) hx h1
+        have hs := ih.S s X pos k ctx ops (some (fd, id)) σ σ1 f1 v1 (hcs ▸ codeAt_left h) (poolAt_left hp) hx h1
         rw [hcs] at hs
         by_cases hn : f1 = .normal
         · subst hn
           simp only [h1] at he
-          have hr := ih.T (s2 :: rest2) X (pos + bytes cs) (k + (constsS s).length) ctx ops fd σ1 σ' f bv
+          have hr := ih.T (s2 :: rest2) X (pos + bytes cs) (k + (constsS s).length) ctx ops fd id σ1 σ' f bv
             (codeAt_right h) (poolAt_right hp) hx he
           exact hs.trans hr
         · have he' : σ' = σ1 ∧ f = f1 := by
@@ -841,7 +950,7 @@ theorem soundT_succ (fuel : Nat) (ih : Sound Φ K F fuel) : SoundT Φ K F (fuel 
       | nil =>
         simp only [constsP, List.append_nil] at hp
         rw [tailP_single] at h
-        have hs := ih.ST s X pos k ctx ops fd σ σ1 f1 v1 h hp hx h1
+        have hs := ih.ST s X pos k ctx ops fd id σ σ1 f1 v1 h hp hx h1
         by_cases hn : f1 = .normal
         · subst hn
           simp only [h1, Option.some.injEq, Prod.mk.injEq] at he
@@ -912,28 +1021,30 @@ theorem soundS_succ (fuel : Nat) (ih : Sound Φ K F fuel) (hI : SoundIfV Φ K F 
     simp only [constsS] at hp
     cases cx with
     | none => simp at he
-    | some fd =>
+    | some c =>
+      obtain ⟨fd, id⟩ := c
       simp only at he
-      cases hee : evalE Φ fuel (some fd) σ e with
+      cases hee : evalE Φ fuel (some (fd, id)) σ e with
       | none => simp [hee] at he
       | some r =>
         obtain ⟨v, σ1⟩ := r
         simp only [hee, Option.some.injEq, Prod.mk.injEq] at he
         obtain ⟨rfl, rfl, rfl⟩ := he
         simp only [compileS] at h ⊢
-        have h1 := ih.E e X pos k ops (some fd) σ σ1 v (codeAt_left h) hp hx hee
-        exact (h1.trans (FSteps.one (fs_retv (codeAt_right h) (hx fd rfl).2))).to (by simp [exitS])
+        have h1 := ih.E e X pos k ops (some (fd, id)) σ σ1 v (codeAt_left h) hp hx hee
+        exact (h1.trans (FSteps.one (fs_retv (codeAt_right h) (hx fd id rfl).2.2))).to (by simp [exitS])
   | retN l =>
     simp only [evalS] at he
     cases cx with
     | none => simp at he
-    | some fd =>
+    | some c =>
+      obtain ⟨fd, id⟩ := c
       simp only [Option.some.injEq, Prod.mk.injEq] at he
       obtain ⟨rfl, rfl, rfl⟩ := he
       simp only [compileS] at h ⊢
       obtain ⟨h1, h2⟩ := codeAt_cons h
       simp only [Instr.size] at h2
-      exact ((FSteps.one (fs_null h1)).trans (FSteps.one (fs_retv h2 (hx fd rfl).2))).to (by simp [exitS])
+      exact ((FSteps.one (fs_null h1)).trans (FSteps.one (fs_retv h2 (hx fd id rfl).2.2))).to (by simp [exitS])
   | block l body =>
     simp only [evalS] at he
     simp only [constsS] at hp
@@ -1061,13 +1172,13 @@ theorem sound_zero : Sound Φ K F 0 where
   Args := by intro a X pos k ops cx σ σ' vs _ _ _ he; simp [evalArgs] at he
   S := by intro s X pos k ctx ops cx σ σ' f bv _ _ _ he; simp [evalS] at he
   SV := by intro s X pos k ctx ops cx σ σ' f bv _ _ _ he; simp [evalS] at he
-  ST := by intro s X pos k ctx ops fd σ σ' f bv _ _ _ he; simp [evalS] at he
+  ST := by intro s X pos k ctx ops fd id σ σ' f bv _ _ _ he; simp [evalS] at he
   P := by intro s X pos k ctx ops cx σ σ' f bv _ _ _ he; simp [evalP] at he
   V := by intro s X pos k ctx ops cx σ σ' f bv _ _ _ he; simp [evalP] at he
-  T := by intro s X pos k ctx ops fd σ σ' f bv _ _ _ he; simp [evalP] at he
+  T := by intro s X pos k ctx ops fd id σ σ' f bv _ _ _ he; simp [evalP] at he
   IfV := by intro ls l c t e X pos k ctx ops cx σ σ' f bv _ _ _ he; simp [evalS] at he
 
-/-- **soundness of the compiler with first-order functions**, for every fuel -/
+/-- **soundness of the compiler with functions and closures**, for every fuel -/
 theorem sound_all (hL : Linked Φ K F) : ∀ fuel, Sound Φ K F fuel
   | 0 => sound_zero
   | fuel+1 =>
